@@ -166,7 +166,7 @@ type c14Corner struct {
 
 // c14PublishCorners: well-formed Publish payloads that sit on the corners of
 // the message schema and of the commit-log record format the value ends up in.
-func c14PublishCorners(r *kit.RNG) []c14Corner {
+func c14PublishCorners(r *kit.RNG) (out []c14Corner) {
 	entry := func(k, v []byte) []byte {
 		var e []byte
 		if k != nil {
@@ -178,10 +178,22 @@ func c14PublishCorners(r *kit.RNG) []c14Corner {
 		return c14LenField(9, e)
 	}
 	val := c14LenField(3, []byte("corner-value"))
-	var many []byte
-	for i := 0; i < 65537; i++ {
-		many = append(many, entry([]byte(fmt.Sprintf("h%05x", i)), []byte("v"))...)
+	manyN := func(n int) []byte {
+		var many []byte
+		for i := 0; i < n; i++ {
+			many = append(many, entry([]byte(fmt.Sprintf("h%05x", i)), []byte("v"))...)
+		}
+		return many
 	}
+	many := manyN(65537)
+	// header counts around the limits of the record format's 16-bit count field
+	// (the server adds "subject" and "reply", so the stored count is n+2):
+	// 32765 still fits and must be stored decoded, the others are beyond it
+	var counts []c14Corner
+	for _, n := range []int{32765, 32766, 32767, 32768, 65533, 65534, 65535, 65536} {
+		counts = append(counts, c14Corner{fmt.Sprintf("headers-%d", n), c14Join(val, manyN(n))})
+	}
+	defer func() { out = append(out[:11:11], append(counts, out[11:]...)...) }()
 	return []c14Corner{
 		{"header-entry-without-key", c14Join(val, entry(nil, []byte("x")))},
 		{"header-entry-empty-value", c14Join(val, entry([]byte("k"), []byte{}))},
@@ -250,7 +262,8 @@ func c14Reference(data []byte, t byte) c14Ref {
 	}
 	r.May, r.Must, r.Want = true, r.Env.Verdict == kit.C14Valid, m
 	if cm, ok := m.(*client.Message); ok {
-		r.Beyond = len(cm.Headers) > 32767
+		// the server adds the "subject" and "reply" headers before storing
+		r.Beyond = len(cm.Headers)+2 > 32767
 		for k := range cm.Headers {
 			if len(k) > 32767 {
 				r.Beyond = true
@@ -270,7 +283,7 @@ func c14CrashClass(kind string, data []byte) string {
 	ref := c14Reference(data, c14KindType(kind))
 	if kind == "stream" && ref.May {
 		m := ref.Want.(*client.Message)
-		if len(m.Headers) > 32767 {
+		if len(m.Headers)+2 > 32767 {
 			return "publish-headers>32767"
 		}
 		for k, v := range m.Headers {
